@@ -60,11 +60,11 @@ def run(chk):
         seed = chk.seed * 1000 + 300 + i
         # short idle limits and a short collection period: the collection counter is shared by all scenes, so the
         # interleaved run collects expired tracks at other moments than the single-scene run
-        kw = dict(steps=200, shards=2, metric="iou" if i % 2 == 0 else "maha", max_idle=(0, 1, 2)[i % 3], objects=3, spread=90, scenes="0,7",
+        kw = dict(steps=200, shards=2, metric="iou" if i % 2 == 0 else "maha", max_idle=(1, 2, 3)[i % 3], objects=3, spread=90, scenes="0,7",
                   crafted=(i % 2 == 0), extra=["--no-lifecycle", "1"] + (["--aw", str((3, 7)[i % 2])] if i % 4 != 3 else []))
         if i % 2 == 1:
             kw["constraints"] = "1:1000.0,4:1000.0"
-        if i % 3 == 1:
+        if i % 3 in (0, 1):
             # one scene is far ahead of the other (skipped by 150 epochs before the first call)
             kw["extra"] = kw["extra"] + ["--pre-skip", "7:150"]
         a = r2.record(chk, f"c04-all-{i}", kind, seed, **kw)
